@@ -90,10 +90,8 @@ func formTokenMatcher(delims []string) *regexp.Regexp {
 	// [^T]|T[^A]|TA[^G]|TAG[^!]|TAG![^R]|TAG!R[^I]|TAG!RI[^G]|TAG!RIG[^H]|TAG!RIGH[^T]
 	exclusion := make([]string, 0, len(delims[3]))
 	for idx, val := range delims[3] {
-		exclusion = append(exclusion, "[^"+string(val)+"]")
-		if idx > 0 {
-			exclusion[idx] = delims[3][0:idx] + exclusion[idx]
-		}
+		// both the prefix and the excluded character are literal text, not regexp syntax
+		exclusion = append(exclusion, regexp.QuoteMeta(delims[3][0:idx])+"[^"+regexp.QuoteMeta(string(val))+"]")
 	}
 
 	tokenMatcher := regexp.MustCompile(
